@@ -451,6 +451,13 @@ def evaluate():
         return sorted(set(bad))
     exc = result["raised"]
     anyfail = bool(failed)
+    is_cyclic = any((a, a) in reach for a in range(N))
+    if is_cyclic:
+        # C07: a cycle is reported as an error before anything runs
+        if sum(started.values()):
+            bad.append("c07_cycle_ran_something")
+        if exc is None:
+            bad.append("c07_cycle_not_reported")
     if exc is None:
         if anyfail:
             bad.append("c06_failure_swallowed")
@@ -463,7 +470,7 @@ def evaluate():
         if interrupted and not kbi:
             bad.append("c17_interrupt_masked")
         if not kbi:
-            cyclic_rejected = type(exc).__name__ == "HasACycle" and any((a, a) in reach for a in range(N)) and not started
+            cyclic_rejected = type(exc).__name__ == "HasACycle" and is_cyclic
             if cyclic_rejected:
                 pass  # C07: a cyclic graph is reported up front, before anything ran
             elif not anyfail:
